@@ -28,6 +28,15 @@ CLAIMS["C05"] = ("SSA value provenance on Store/ComputeLink/choosers + field/glo
  "Trusted: go/ssa + go/types, hash.Hash and io.MultiWriter semantics, purity of Registry lookups (C20). Not covered: codec determinism (C02/C04), BuildLink truncation/version arithmetic, equality of loaded and stored node.",
  "DESIGN.md section 3, C05")
 
+CLAIMS["C17"] = ("path-provenance classification (interprocedural, parameter classes joined over call sites) + slice/value provenance for the in-memory stores",
+ "Structural necessary conditions of 'faithful key-value map': in fsstore the sharding function receives escapingFunc(key), the key-to-path function returns Join(basepath, shards), and every path argument of every os call is classified BASE/STAGINGDIR/STAGING/DEST/DESTDIR by provenance (never a raw key); memstore and cidlink.Memory never keep the caller's slice and Get returns a fresh copy; the storage fall-backs pass the caller's key unchanged. Not map semantics over histories.",
+ "Trusted: go/ssa + go/types, injectivity and path-safety of the base32 escaping, filepath.Join/Dir. Not covered: histories of put/get, aliasing arithmetic of sharding, the empty-key abort sentinel.",
+ "DESIGN.md section 3, C17")
+CLAIMS["C18"] = ("who-may-call table over package os with path provenance + must-pass-through (Close before rename, abort paths) in the commit closure",
+ "Structural argument for write atomicity decided from code shape: destinations are only created by os.Rename from an exclusively created staging file; write-mode opens only STAGING with O_CREATE|O_EXCL; Remove only STAGING; Mkdir only DESTDIR/STAGINGDIR; no other mutating os function; Close dominates rename and rename is unreachable when Close failed; the returned writer is the staging file; Put aborts on write error and the abort branch removes the staging file and cannot reach rename. With rename(2) atomicity trusted, a key is absent or complete at every instant. No crash point or interleaving is executed.",
+ "Trusted: go/ssa + go/types, POSIX rename atomicity and O_EXCL exclusivity, crypto/rand staging names. Not covered: power-loss durability (no fsync; outside the property), the EEXIST race in haveDir, actual crash/interleaving exploration.",
+ "DESIGN.md section 3, C18")
+
 NOT_APPLICABLE = {
  "C13": "concerns the output of running the code generator on arbitrary schemas and the run-time equivalence of two engines; the generator's logic lives in text/template strings, so no typed program exists to analyse before execution (DESIGN.md section 4)",
 }
